@@ -13,6 +13,7 @@ _supported_table_args) which are protected by add_table's match_depth check.
 from __future__ import annotations
 
 import ast
+import re
 
 from ..cfg import CFG, forward
 from ..core import AnalysisError, Cls, Ctx, call_name, dotted, is_self_attr, norm, walk_no_nested
@@ -675,7 +676,61 @@ def rule_g(ctx: Ctx) -> None:
     ctx.min_instances("normalisation_call_sites", n, 7)
 
 
-RULES = [rule_a, rule_b, rule_c, rule_d, rule_e, rule_f, rule_g]
+def _mapping_equalities(tree: ast.AST) -> list[tuple[ast.FunctionDef, ast.Compare, str]]:
+    """(function, comparison, operand) for every ==/!= whose operand is a dict built in that function, a dict-annotated parameter or a registered mapping field."""
+    out = []
+    for fn in [x for x in ast.walk(tree) if isinstance(x, (ast.FunctionDef, ast.AsyncFunctionDef))]:
+        mappings: set[str] = set()
+        for a in fn.args.args + fn.args.kwonlyargs:
+            if a.annotation is not None and re.search(r"\b(dict|Dict|Mapping|MutableMapping|OrderedDict)\b", norm(a.annotation)):
+                mappings.add(a.arg)
+        for x in walk_no_nested(fn):
+            if isinstance(x, (ast.Assign, ast.AnnAssign)):
+                tgts = x.targets if isinstance(x, ast.Assign) else [x.target]
+                v = x.value
+                if v is not None and len(tgts) == 1 and isinstance(tgts[0], ast.Name) and (
+                        isinstance(v, (ast.Dict, ast.DictComp)) or (isinstance(v, ast.Call) and call_name(v) in ("dict", "OrderedDict", "ensure_column_mapping"))):
+                    if not (isinstance(v, ast.Dict) and not v.keys):
+                        mappings.add(tgts[0].id)
+
+        def is_mapping(e: ast.AST) -> bool:
+            if isinstance(e, ast.Name):
+                return e.id in mappings
+            if isinstance(e, ast.Attribute) and isinstance(e.value, ast.Name) and e.value.id == "self":
+                return e.attr in ("mapping", "mapping_trie")
+            return isinstance(e, ast.DictComp) or (isinstance(e, ast.Dict) and bool(e.keys))
+
+        for x in walk_no_nested(fn):
+            if isinstance(x, ast.Compare) and any(isinstance(o, (ast.Eq, ast.NotEq)) for o in x.ops):
+                ops = [x.left] + list(x.comparators)
+                if any(isinstance(o, ast.Dict) and not o.keys for o in ops) or any(isinstance(o, ast.Constant) for o in ops):
+                    continue  # emptiness / constant test
+                hit = next((o for o in ops if is_mapping(o)), None)
+                if hit is not None:
+                    out.append((fn, x, norm(hit)))
+    return out
+
+
+def rule_h(ctx: Ctx) -> None:
+    ctx.rule("C18.h", "registrations are never compared with == : dict equality ignores the order of the keys, while the order of a table's columns is part of what a schema "
+                      "answers (column_names, star expansion) — a decision in sqlglot/schema.py taken on `==` / `!=` of column mappings treats a re-registration with "
+                      "reordered columns as 'nothing changed' (emptiness and constant tests are exempt)")
+    probe = ast.parse("class S:\n def add(self, t, m: dict):\n  n = {k: v for k, v in m.items()}\n  old = self.find(t)\n  if old == n:\n   return\n  if m != {}:\n   pass\n")
+    ctx.require(len(_mapping_equalities(probe)) == 1, "internal: C18.h matcher no longer recognises its positive control")
+    m = ctx.repo.modules.get("sqlglot.schema")
+    ctx.require(m is not None, "anchor vanished: sqlglot/schema.py")
+    n_cmp = sum(1 for x in ast.walk(m.tree) if isinstance(x, ast.Compare) and any(isinstance(o, (ast.Eq, ast.NotEq)) for o in x.ops))
+    ctx.count("equality_comparisons_scanned", n_cmp)
+    hits = _mapping_equalities(m.tree)
+    for fn, cmp_, operand in hits:
+        ctx.fail(m, cmp_, f"sqlglot.schema:{fn.name}", cmp_, f"`{norm(cmp_, 70)}` compares the column mapping `{operand}` with == : two registrations that list the same columns in a different "
+                                                          f"order compare equal, so whatever this test decides (skipping the write, keeping cached answers) leaves the old column order "
+                                                          f"in force after add_table")
+    if not hits:
+        ctx.ok("sqlglot.schema|no equality comparison of column mappings", {"comparisons_scanned": n_cmp, "positive_control": "recognised"})
+
+
+RULES = [rule_a, rule_b, rule_c, rule_d, rule_e, rule_f, rule_g, rule_h]
 EXPLANATION = (
     "Cache-coherence analysis of MappingSchema computed from the source: dict memos are discovered by pattern (get/in + "
     "item store on a field initialised in __init__), the fields each fill function reads are collected transitively "
